@@ -125,6 +125,8 @@ func c05(c *Check) {
 	}
 	c.Trusted = []string{"BaseApp atomicity", "go/ssa"}
 	c.Assume = []string{"guards and bindings were selected by source position at freeze time (xlint/picks/C05.txt, C02.txt)"}
+	c.Rule("C05/acks-survive-genesis", "stored acknowledgements are exported from and re-imported into their own family under the same (src,dst,seq): a restart between writing and relaying an acknowledgement neither removes it nor files it under another packet", 4)
+	packetGenesisBinding(c, "C05/acks-survive-genesis", "Acknowledgements")
 	c.Rule("C05/write-ack", "frozen table: WriteAcknowledgement rejects an empty ack and an already stored ack for the packet's own triple, and stores CommitAcknowledgement(ack parameter) under exactly that triple", 5)
 	n := c.Frozen("C05")
 	c.Rule("C05/acknowledge-packet", "frozen table (shared with C02): the commitment is deleted only after stored==recomputed commitment and successful verification; a second acknowledgement fails the commitment comparison because the commitment is gone", 10)
